@@ -587,6 +587,39 @@ pub fn judge(plan: &Plan, stats: &mut Stats) -> PlanVerdict {
 }
 
 /// digest of a fixed batch of scenarios, for cross-process comparison (`proc` dimension)
+/// what a process does before the compared batch (proc dimension of C07): nothing, one generation
+/// in unsafe mode with all mutators, one with the opt-in opcodes enabled under protocol 5, one long
+/// generation, or one generation from fuzzer bytes on a reused generator
+pub fn prelude(kind: u64) {
+    let mut c = desc::Config::default_for(2);
+    match kind {
+        1 => {
+            c.unsafe_mutations = true;
+            c.mutators = (0..7u8).collect();
+            c.rate = 1.0;
+        }
+        2 => {
+            c.protocol = 5;
+            c.allow_ext = true;
+            c.allow_buffer = true;
+        }
+        3 => {
+            c.protocol = 4;
+            c.min_opcodes = 3_000;
+            c.max_opcodes = 3_000;
+        }
+        4 => {
+            c.protocol = 0;
+        }
+        _ => return,
+    }
+    let mut sc = Scenario::solo(c, desc::Entropy::Rand(kind));
+    if kind == 4 {
+        sc.history.push(desc::HOp::Gen(desc::Entropy::Bytes(vec![7u8; 200])));
+    }
+    let _ = exec::run_scenario(&sc, Trace::Off, false);
+}
+
 pub fn digest_batch(seed: u64, n: u64) -> String {
     let profile = Profile { allow_unsafe: true, memo_mutators: true, max_cap: 400, long_bias: 0.0, ..Profile::default() };
     let mut lines = String::new();
